@@ -101,7 +101,7 @@ def run_limited(cmd, cwd, env, logpath, timeout_s, mem_gb):
 
 
 # ----------------------------------------------------------------------------- kani output parsing
-CHECK_RE = re.compile(r'^Check (\d+): (\S+)\n\t - Status: (\S+)\n\t - Description: "(.*)"\n\t - Location: (.*)$', re.M)
+CHECK_RE = re.compile(r'^Check (\d+): (.+)\n\t - Status: (\S+)\n\t - Description: "(.*)"\n\t - Location: (.*)$', re.M)
 
 
 def parse_kani_log(text):
